@@ -58,7 +58,8 @@ type api struct {
 }
 
 func v1api(sk *capacity.SpaceKeeper) *api {
-	return &api{
+	var self *api
+	self = &api{
 		infos: func(f uint32) (int, error) {
 			x, err := sk.WorkSpaceInfos(engine.WorkSpaceStateFlags(f))
 			sk.WorkSpaceIDs(engine.WorkSpaceStateFlags(f))
@@ -73,35 +74,98 @@ func v1api(sk *capacity.SpaceKeeper) *api {
 		offered: func() error {
 			var ch pocutil.Hash
 			_, err := sk.GetProofs(context.Background(), engine.SFMining, ch, false)
-			// and the streaming form, with the caller giving up at a seeded moment while the keeper is still writing
+			// and the streaming forms, with the caller giving up at a seeded moment while the keeper is still writing
 			n := atomic.AddInt64(&offeredCalls, 1)
+			ids := self.ids
 			ctx, cancel := context.WithCancel(context.Background())
-			rd, rerr := sk.GetProofsReader(ctx, engine.SFAll, ch, false)
+			var rd engine.ProofReader
+			var rerr error
+			if n%3 == 0 && len(ids) > 0 {
+				rd, rerr = sk.GetProofReader(ctx, ids[int(n)%len(ids)], ch, false)
+			} else {
+				rd, rerr = sk.GetProofsReader(ctx, engine.SFAll, ch, false)
+			}
 			if rerr != nil {
 				cancel()
 				return err
 			}
-			go func() {
-				for i := int64(0); i < n%97; i++ {
-					runtime.Gosched()
-				}
-				cancel()
-			}()
-			for {
-				if _, e := rd.Read(); e != nil {
-					break
-				}
-			}
-			cancel()
+			drainWithCancel(ctx, cancel, n, func() error { _, e := rd.Read(); return e })
 			return err
 		},
 	}
+	return self
+}
+
+// giveUp maps the context of a streaming query in flight to its cancel function: the "proofrw.send" handler gives
+// the query up at the moment the keeper's writer is about to hand a proof over.
+var giveUp sync.Map
+var sendsSeen, sendsCancelled int64
+
+// drainWithCancel reads a streaming reply to its end while the caller gives up at a seeded moment: after a seeded
+// number of yields, or (every other query) exactly when the keeper's writer is about to send.
+func drainWithCancel(ctx context.Context, cancel context.CancelFunc, n int64, read func() error) {
+	if n%2 == 0 {
+		giveUp.Store(ctx, cancel)
+		defer giveUp.Delete(ctx)
+	}
+	go func() {
+		for i := int64(0); i < n%97; i++ {
+			runtime.Gosched()
+		}
+		if n%2 == 1 {
+			cancel()
+		}
+	}()
+	for {
+		if e := read(); e != nil {
+			break
+		}
+	}
+	cancel()
+}
+
+// installSendHook: when a writer is about to send on a query's channel and the query is registered in giveUp, the
+// query's context is cancelled right there and the writer pauses briefly, so that the reply's watcher (which closes the
+// channel when the context ends) runs while the writer stands between its closed-check and its send.
+// stopAtPlotStart (set during some stress-real scenarios): every other plot that starts (the first one included) is hit by a stop request at the
+// very moment it starts (between the DB announcing "plotting" and its plot goroutine running).
+var stopAtPlotStart int32
+var plotStarts, stopsAtStart int64
+
+func installSendHook() {
+	verifhook.SetPoint("plot.starting", func(args ...interface{}) {
+		n := atomic.AddInt64(&plotStarts, 1)
+		if atomic.LoadInt32(&stopAtPlotStart) == 0 || n%2 != 1 || len(args) == 0 {
+			return
+		}
+		if db, ok := args[0].(interface{ StopPlot() chan error }); ok {
+			atomic.AddInt64(&stopsAtStart, 1)
+			go func() { <-db.StopPlot() }()
+			time.Sleep(300 * time.Microsecond)
+		}
+	})
+	verifhook.SetPoint("proofrw.send", func(args ...interface{}) {
+		atomic.AddInt64(&sendsSeen, 1)
+		if len(args) == 0 {
+			return
+		}
+		ctx, ok := args[0].(context.Context)
+		if !ok {
+			return
+		}
+		if c, ok := giveUp.Load(ctx); ok {
+			atomic.AddInt64(&sendsCancelled, 1)
+			c.(context.CancelFunc)()
+			time.Sleep(300 * time.Microsecond)
+		}
+	})
 }
 
 var offeredCalls int64
 
 func v2api(sk *skchia.SpaceKeeper) *api {
-	return &api{
+	var self *api
+	self = &api{
 		infos: func(f uint32) (int, error) {
 			x, err := sk.WorkSpaceInfos(enginev2.WorkSpaceStateFlags(f))
 			sk.WorkSpaceIDs(enginev2.WorkSpaceStateFlags(f))
@@ -114,10 +178,33 @@ func v2api(sk *skchia.SpaceKeeper) *api {
 		start: sk.Start, stop: sk.Stop,
 		offered: func() error {
 			var ch pocutil.Hash
-			_, err := sk.GetQualities(context.Background(), enginev2.SFMining, ch)
+			n := atomic.AddInt64(&offeredCalls, 1)
+			fl := enginev2.SFMining
+			if n%4 == 0 {
+				fl = enginev2.SFAll
+			}
+			_, err := sk.GetQualities(context.Background(), fl, ch)
+			ids := self.ids
+			if len(ids) == 0 {
+				return err
+			}
+			ctx, cancel := context.WithCancel(context.Background())
+			var rd enginev2.ProofReader
+			var rerr error
+			if n%3 == 0 {
+				rd, rerr = sk.GetProofReader(ctx, ids[int(n)%len(ids)], ch, 0)
+			} else {
+				rd, rerr = sk.GetProofsReader(ctx, ids, ch, make([]uint32, len(ids)))
+			}
+			if rerr != nil {
+				cancel()
+				return err
+			}
+			drainWithCancel(ctx, cancel, n, func() error { _, e := rd.Read(); return e })
 			return err
 		},
 	}
+	return self
 }
 
 // Rec is the result of one scenario.
@@ -134,6 +221,11 @@ type Rec struct {
 	Leaked   int      `json:"leaked"` // goroutines after Stop minus before Start
 	Note     string   `json:"note"`
 	Distinct string   `json:"distinct"`
+	// proofs the keeper was about to send to a streaming query / of those, sends at which the query was given up
+	Sends       int64 `json:"sends"`
+	SendCancels int64 `json:"send_cancels"`
+	// stop requests delivered to a plot at the moment it started
+	StopsAtStart int64 `json:"stops_at_plot_start"`
 }
 
 type tracker struct {
@@ -281,6 +373,10 @@ func scenario(rng *vh.Rng, idx int, kind string, base string) Rec {
 			ctl.UseRealBackend()
 			bl = rng.PickI(12, 14, 16)
 		} else {
+			if idx%7 == 0 {
+				// "however many": more spaces than any worker pool / channel buffer of the keeper has slots
+				n = rng.Range(30, 72)
+			}
 			np := rng.Intn(n + 1)
 			c := 0
 			ctl.CreatePlotted = func(string) bool { c++; return c <= np }
@@ -309,6 +405,11 @@ func scenario(rng *vh.Rng, idx int, kind string, base string) Rec {
 		if kind == "stress-real" && idx%4 == 1 {
 			a.plotDir = dir
 		}
+		if kind == "stress-real" && idx%2 == 0 {
+			atomic.StoreInt64(&plotStarts, 0)
+			atomic.StoreInt32(&stopAtPlotStart, 1)
+			defer atomic.StoreInt32(&stopAtPlotStart, 0)
+		}
 		G, M := rng.Range(4, 16), rng.Range(20, 60)
 		rec.Params = fmt.Sprintf("spaces=%d bl=%d goroutines=%d calls=%d external_unlinks=%v", n, bl, G, M, a.plotDir != "")
 		sk.Start()
@@ -322,6 +423,10 @@ func scenario(rng *vh.Rng, idx int, kind string, base string) Rec {
 		rec.Plots = ctl.PlotCalls
 	case "stress-fake-v2":
 		n := rng.Range(1, 3)
+		if idx%3 == 0 {
+			// "however many": more spaces than any worker pool / channel buffer of the keeper has slots
+			n = rng.Range(30, 72)
+		}
 		files := kp.PlantV2Plots(dir, n, uint64(idx)+1)
 		defer kp.ForgetV2Plots(files)
 		cfg := config.DefaultConfig()
@@ -567,6 +672,7 @@ func child(seed int64, from, to int, out, prog string, thorough bool) {
 	kp.InstallBackend()
 	kp.InstallBackendV2()
 	installPlotGates()
+	installSendHook()
 	// real plots: small windows so that several windows and stop checks occur
 	verifhook.SetSize("plot.cache", func(v uint64) uint64 {
 		if v > 4096 {
@@ -583,6 +689,8 @@ func child(seed int64, from, to int, out, prog string, thorough bool) {
 		kind := kindOf(i, thorough)
 		fmt.Fprintf(pf, "START %d %s\n", i, kind)
 		rec := scenario(root.Derive("scen", i), i, kind, dir)
+		rec.Sends, rec.SendCancels = atomic.SwapInt64(&sendsSeen, 0), atomic.SwapInt64(&sendsCancelled, 0)
+		rec.StopsAtStart = atomic.SwapInt64(&stopsAtStart, 0)
 		b, _ := json.Marshal(rec)
 		of.Write(append(b, '\n'))
 		of.Sync()
@@ -797,6 +905,9 @@ func judge(run *vh.Run, rec *Rec) {
 	} else if !rec.StopOK {
 		run.Violate(rec.Idx, "keeper-stop-did-not-return", map[string]string{"scenario_kind": rec.Kind}, map[string]interface{}{"params": rec.Params})
 	}
+	run.Count("observed:streamed_proof_sends", rec.Sends)
+	run.Count("observed:queries_given_up_exactly_at_a_send", rec.SendCancels)
+	run.Count("observed:stops_delivered_at_plot_start", rec.StopsAtStart)
 	if rec.Leaked > 40 {
 		run.Count("observed:scenarios_with_more_than_40_extra_goroutines_after_stop", 1)
 	}
